@@ -541,6 +541,7 @@ fn level2(ctx: &mut Ctx) {
     let mut idx = 0u64;
     let mut inconclusive_markers = 0u64;
     let mut violated = false;
+    let mut misses: Vec<u32> = vec![0; markers.len()];
     let svc_names = [svc_a.clone(), svc_b.clone(), svc_c.clone()];
     while sent < total && !violated {
         let mut batch_hex: Vec<String> = Vec::new();
@@ -585,16 +586,33 @@ fn level2(ctx: &mut Ctx) {
             sent += 1;
         }
         // markers: every loop must still answer
-        for m in markers.iter() {
+        let mut round_ok = vec![false; markers.len()];
+        for (mi, m) in markers.iter().enumerate() {
             mid = mid.wrapping_add(1);
             let ok = probe(&sock, &group, m, mid, Duration::from_secs(2));
+            round_ok[mi] = ok;
             if ok {
                 ctx.count("level2_marker_replies");
+                misses[mi] = 0;
             } else if monitor::foreign_panic_count() > before {
                 violated = true;
                 break;
             } else {
                 inconclusive_markers += 1;
+                misses[mi] += 1;
+            }
+        }
+        // a loop that ended without panicking (early return / break) never answers again, while a lost datagram is
+        // transient: three consecutive silent rounds (each with retransmissions over 2 s) while other services on the
+        // same socket path keep answering decide "the receive loop stopped"
+        if !violated {
+            for (mi, m) in markers.iter().enumerate() {
+                if misses[mi] >= 3 && round_ok.iter().any(|o| *o) {
+                    ctx.violation("loop-keeps-running", &format!("service-stopped-answering:{}", m.what),
+                        format!("{} did not answer its marker query in {} consecutive rounds although no panic was recorded and other services still answer: its receive loop ended", m.what, misses[mi]),
+                        json!({"family": "level2", "idx": idx, "last_batch": batch_hex}));
+                    violated = true;
+                }
             }
         }
         if monitor::foreign_panic_count() > before {
@@ -609,6 +627,59 @@ fn level2(ctx: &mut Ctx) {
         }
         if ctx.time_up() {
             break;
+        }
+    }
+    // ---- a query whose reply cannot be sent in one UDP datagram --------------------------------------------
+    // 1400 compressed questions for a name that owns 60 address records: the reply (84000 answers, > 1 MB) cannot be
+    // sent; the handling of that datagram must end with the loop still running.
+    if !violated && !ctx.slow_tool {
+        let bigname = format!("big-{}.local", pid);
+        let r = monitor::guard(|| {
+            for k in 0..60u32 {
+                let rr = ResourceRecord::new(Name::new(&bigname).unwrap().into_owned(), CLASS::IN, 10, RData::A(A { address: 0x0A00_0000 + k }));
+                responder.add_resource(rr.clone());
+                rt.block_on(aresponder.add_resource(rr));
+            }
+        });
+        if r.is_ok() {
+            let mut q = Packet::new_query(0x7777);
+            for _ in 0..1400 {
+                q.questions.push(Question::new(Name::new(&bigname).unwrap().into_owned(), TYPE::A.into(), CLASS::IN.into(), true));
+            }
+            if let Ok(bytes) = q.build_bytes_vec_compressed() {
+                ctx.case_bytes(true, &bytes);
+                ctx.count("level2_datagrams_oversized-reply-query");
+                for _ in 0..2 {
+                    let _ = sock.send_to(&bytes, group);
+                    std::thread::sleep(Duration::from_millis(300));
+                }
+                let mut silent = vec![0u32; markers.len()];
+                for _round in 0..3 {
+                    for (mi, m) in markers.iter().enumerate() {
+                        mid = mid.wrapping_add(1);
+                        if probe(&sock, &group, m, mid, Duration::from_secs(2)) {
+                            ctx.count("level2_marker_replies");
+                        } else {
+                            silent[mi] += 1;
+                        }
+                    }
+                }
+                if monitor::foreign_panic_count() > before {
+                    report_foreign(ctx, "while answering a query whose reply is too large to send");
+                    violated = true;
+                } else if silent.iter().any(|s| *s >= 3) && silent.iter().any(|s| *s == 0) {
+                    for (mi, m) in markers.iter().enumerate() {
+                        if silent[mi] >= 3 {
+                            ctx.violation("loop-keeps-running", &format!("service-stopped-answering-after-unsendable-reply:{}", m.what),
+                                format!("{} stopped answering after a query (1400 questions for a name with 60 address records) whose reply is too large for one UDP datagram; no panic was recorded: its receive loop ended", m.what),
+                                json!({"family": "level2-oversized", "idx": 0, "query_bytes": bytes.len(), "questions": 1400, "records_for_name": 60}));
+                            violated = true;
+                        }
+                    }
+                } else if silent.iter().all(|s| *s >= 3) {
+                    ctx.inconclusive.push("no service answered after the oversized-reply probe (network?)".into());
+                }
+            }
         }
     }
     resolver_stop.store(true, Ordering::Relaxed);
